@@ -144,7 +144,9 @@ def runUdpSize (case impl : String) : String × String :=
   let toks := words case
   match (kvGet toks "opt").bind boolOfStr, kvNat toks "size", kvNat toks "k", kvNat toks "seq" with
   | some opt, some size, some k, some seq =>
-    let name : Name := labelOfStr s!"big{k}" ++ labelOfStr s!"u{seq}"
+    let pad := (kvNat toks "pad").getD 0
+    let name : Name := labelOfStr s!"big{k}" ++ labelOfStr s!"u{seq}" ++
+      (if pad > 0 then labelOfStr (String.mk (List.replicate pad 'x')) else [])
     let q : Question := ⟨name, 16, 1⟩
     let resp : Msg :=
       { hdr := { Router.emptyHdr with response := true, rd := true, ra := true }
